@@ -6,7 +6,9 @@ Specifications (all expected values are computed by TLC):
                            DEFINITIONAL XDM image DefSeq / DefParent / DefChildren / DefStringValue
   spec/TreeBuild.tla       step machine transcribing build_node_tree / build_lxml_node_tree and the lazy
                            namespace / attribute nodes; refinement invariants machine == definition
-  spec/NodeOps.tla         value-state machine of is << >> union intersect except root innermost outermost
+  spec/NodeOps.tla         value-state machine of is << >> union intersect except root innermost outermost: operand
+                           sets as variables (chains), operands as absolute / relative PATHS evaluated from an element
+                           focus (item= and inside a step), fn:root sequences on one dynamic context (RootWalk)
   spec/TraceTreeBuild.tla  binding B: recorded (kind, position, parent position) events of larger random
                            real trees judged by TLC against TreeBuild and against the definition
 
@@ -16,13 +18,16 @@ Binding A (spec -> code):
     XPathContext(root).root: nodes sorted by .position, iter() order, parent, children, string values,
     namespace prefixes, elements map.  DECISIVE is the definitional image; the exact position numbers of
     the transcribed algorithm are diagnostic (a drift is a note, the property only asks for order).
-  * every transition of the NodeOps graph is evaluated with the 2.0/3.0/3.1 parsers (| also 1.0).
+  * every transition of the NodeOps graph is evaluated with the 2.0/3.0/3.1 parsers (| also 1.0); the path-operand
+    and RootWalk transitions on FRESH node trees (no attribute / namespace node exists before the expression
+    reaches it; results are projected only after the evaluation).
+  * text / tail chunks range over {None, '', 't'} ('' set programmatically: parsers never produce it).
 Binding B (code -> spec): see TraceTreeBuild.tla.
 Second oracle for the SPEC (never for the code): libxml2 (lxml .xpath) -- document order of //node(),
 string(.) of the document and of every element, attribute / namespace counts; disagreement = exit 2.
 
 Implementation-defined points kept out of the vectors: xmlns="" undeclarations (lxml and libxml2 both
-report a (None, '') binding), empty-string text, relative order of the namespace nodes and of the
+report a (None, '') binding), relative order of the namespace nodes and of the
 attributes inside one element (compared as sets; positions must be unique and inside the block).
 """
 from __future__ import annotations
@@ -48,55 +53,68 @@ E = fs()
 ALLK = {"e", "c", "p"}
 BOOL = {True, False}
 ALLCFG = dict(Variants={"etree", "lxml"}, RootArgs={"elem", "tree"}, Fragments={"none", "true", "false"})
+NOEMPTY = {False}      # EmptyOpts: no '' chunks
 NS4 = {E, fs({"p"}), fs({"xml"}), fs({"xml", "p"})}
 
 TB_CONFIGS = {
     'quick': [
         # every call configuration x every small tree with every feature
-        ('cfg2', dict(MaxItems=2, ItemKinds=ALLK, TextOpts=BOOL, TailOpts=BOOL, AttrCounts={0, 1},
+        ('cfg2', dict(MaxItems=2, ItemKinds=ALLK, TextOpts=BOOL, TailOpts=BOOL, EmptyOpts=NOEMPTY, AttrCounts={0, 1},
                       DeclOpts={E, fs({"p"})}, NsArgs=NS4, MaxSibs=0, **ALLCFG)),
         # lxml document-level comments / PIs before and after the root element
-        ('sibs', dict(MaxItems=2, ItemKinds=ALLK, TextOpts=BOOL, TailOpts=BOOL, AttrCounts={0}, DeclOpts={E},
+        ('sibs', dict(MaxItems=2, ItemKinds=ALLK, TextOpts=BOOL, TailOpts=BOOL, EmptyOpts=NOEMPTY, AttrCounts={0}, DeclOpts={E},
                       Variants={"lxml"}, RootArgs={"elem", "tree"}, Fragments={"none", "true", "false"},
                       NsArgs={E}, MaxSibs=2)),
         # all shapes up to 4 items: nesting, text / tail after every kind of child, pops
-        ('shape4', dict(MaxItems=4, ItemKinds=ALLK, TextOpts=BOOL, TailOpts=BOOL, AttrCounts={0}, DeclOpts={E},
+        ('shape4', dict(MaxItems=4, ItemKinds=ALLK, TextOpts=BOOL, TailOpts=BOOL, EmptyOpts=NOEMPTY, AttrCounts={0}, DeclOpts={E},
                         Variants={"etree", "lxml"}, RootArgs={"tree"}, Fragments={"none"}, NsArgs={E}, MaxSibs=0)),
         # the gap: namespace count x 'xml' declared or not x attribute count, at every depth
-        ('gap3', dict(MaxItems=3, ItemKinds={"e"}, TextOpts={True}, TailOpts=BOOL, AttrCounts={0, 2},
+        ('gap3', dict(MaxItems=3, ItemKinds={"e"}, TextOpts={True}, TailOpts=BOOL, EmptyOpts=NOEMPTY, AttrCounts={0, 2},
                       DeclOpts={E, fs({"p"}), fs({"", "q"})}, Variants={"etree", "lxml"}, RootArgs={"elem"},
                       Fragments={"none"}, NsArgs=NS4, MaxSibs=0)),
+        # the text / tail alphabet {None, '', 't'}: empty-string chunks (only programs create them) are non-None chunks
+        ('empty3', dict(MaxItems=3, ItemKinds={"e", "c"}, TextOpts=BOOL, TailOpts=BOOL, EmptyOpts=BOOL, AttrCounts={0},
+                        DeclOpts={E}, Variants={"etree", "lxml"}, RootArgs={"elem"}, Fragments={"none"}, NsArgs={E},
+                        MaxSibs=0)),
     ],
     'thorough': [
-        ('cfg3', dict(MaxItems=3, ItemKinds=ALLK, TextOpts=BOOL, TailOpts=BOOL, AttrCounts={0, 1},
+        ('empty4', dict(MaxItems=4, ItemKinds={"e", "c"}, TextOpts={True}, TailOpts=BOOL, EmptyOpts=BOOL, AttrCounts={0},
+                        DeclOpts={E}, Variants={"etree", "lxml"}, RootArgs={"elem", "tree"}, Fragments={"none"}, NsArgs={E},
+                        MaxSibs=0)),
+        ('cfg3', dict(MaxItems=3, ItemKinds=ALLK, TextOpts=BOOL, TailOpts=BOOL, EmptyOpts=NOEMPTY, AttrCounts={0, 1},
                       DeclOpts={E, fs({"p"})}, NsArgs=NS4, MaxSibs=0, **ALLCFG)),
-        ('sibs3', dict(MaxItems=3, ItemKinds={"e", "c"}, TextOpts=BOOL, TailOpts=BOOL, AttrCounts={0}, DeclOpts={E},
+        ('sibs3', dict(MaxItems=3, ItemKinds={"e", "c"}, TextOpts=BOOL, TailOpts=BOOL, EmptyOpts=NOEMPTY, AttrCounts={0}, DeclOpts={E},
                        Variants={"lxml"}, RootArgs={"elem", "tree"}, Fragments={"none", "true", "false"},
                        NsArgs={E}, MaxSibs=2)),
-        ('shape5', dict(MaxItems=5, ItemKinds=ALLK, TextOpts=BOOL, TailOpts=BOOL, AttrCounts={0}, DeclOpts={E},
+        ('shape5', dict(MaxItems=5, ItemKinds=ALLK, TextOpts=BOOL, TailOpts=BOOL, EmptyOpts=NOEMPTY, AttrCounts={0}, DeclOpts={E},
                         Variants={"etree", "lxml"}, RootArgs={"tree"}, Fragments={"none"}, NsArgs={E}, MaxSibs=0)),
-        ('gap3full', dict(MaxItems=3, ItemKinds={"e"}, TextOpts=BOOL, TailOpts=BOOL, AttrCounts={0, 1, 2},
+        ('gap3full', dict(MaxItems=3, ItemKinds={"e"}, TextOpts=BOOL, TailOpts=BOOL, EmptyOpts=NOEMPTY, AttrCounts={0, 1, 2},
                           DeclOpts={E, fs({"p"}), fs({"", "q"})}, Variants={"etree", "lxml"},
                           RootArgs={"elem"}, Fragments={"none"},
                           NsArgs=NS4 | {fs({"", "p"})}, MaxSibs=0)),
-        ('gap4', dict(MaxItems=4, ItemKinds={"e"}, TextOpts={True}, TailOpts={True}, AttrCounts={0, 2},
+        ('gap4', dict(MaxItems=4, ItemKinds={"e"}, TextOpts={True}, TailOpts={True}, EmptyOpts=NOEMPTY, AttrCounts={0, 2},
                       DeclOpts={E, fs({"p"})}, Variants={"etree", "lxml"}, RootArgs={"elem"},
                       Fragments={"none"}, NsArgs={E, fs({"xml", "p"})}, MaxSibs=0)),
     ],
 }
 
 OPERANDS = {"elems", "attrs", "nss", "texts", "kids", "odd", "leaves", "all", "top", "last"}
+# path-spelled operands evaluated from an element focus
+PATHS = dict(AbsPaths={"//*", "//@*"}, RelPaths={"*", "@*", ".//*"}, RelRel=False, PathCmpOps={"is", "<<"})
+PATHS_FULL = dict(AbsPaths={"//*", "//@*", "//text()"}, RelPaths={"*", "@*", ".//*", "text()", "."}, RelRel=True,
+                  PathCmpOps={"is", "<<", ">>"})
 NO_CONFIGS = {
     'quick': [
         ('ops2', dict(MaxItems=2, ItemKinds={"e", "c"}, TextOpts={True}, TailOpts={True}, AttrCounts={1},
                       DeclOpts={fs({"p"})}, NsArgs={E}, MaxSibs=1, Operands=OPERANDS - {"all", "top", "last"},
-                      MaxSteps=2, **ALLCFG)),
+                      MaxSteps=2, **PATHS, **ALLCFG)),
     ],
     'thorough': [
         ('ops2', dict(MaxItems=2, ItemKinds={"e", "c"}, TextOpts={True}, TailOpts={True}, AttrCounts={1},
-                      DeclOpts={fs({"p"})}, NsArgs={E}, MaxSibs=1, Operands=OPERANDS, MaxSteps=2, **ALLCFG)),
+                      DeclOpts={fs({"p"})}, NsArgs={E}, MaxSibs=1, Operands=OPERANDS, MaxSteps=2,
+                      **PATHS_FULL, **ALLCFG)),
         ('ops3', dict(MaxItems=3, ItemKinds={"e", "c"}, TextOpts={True}, TailOpts={True}, AttrCounts={1},
-                      DeclOpts={fs({"p"})}, NsArgs={E}, MaxSibs=0, Operands=OPERANDS - {"all", "top"}, MaxSteps=2,
+                      DeclOpts={fs({"p"})}, NsArgs={E}, MaxSibs=0, Operands=OPERANDS - {"all", "top"}, MaxSteps=2, **PATHS,
                       Variants={"etree", "lxml"}, RootArgs={"elem", "tree"}, Fragments={"none", "false"})),
     ],
 }
@@ -117,6 +135,10 @@ class Built:
         self.variant = cfg['variant']
         n = tree['n']
         par, knd, txt, tl, nat, decl = (tree[k] for k in ('par', 'knd', 'txt', 'tl', 'nat', 'decl'))
+        etx = tree.get('etx') or [False] * n       # the chunk is the empty string '' (a non-None chunk)
+        etl = tree.get('etl') or [False] * n
+        self.etx, self.etl = etx, etl
+        self.empties = [f't{i}' for i in range(1, n + 1) if etx[i - 1]] + [f'l{i}' for i in range(1, n + 1) if etl[i - 1]]
         kids: dict[int, list[int]] = {i: [] for i in range(0, n + 1)}
         for i in range(1, n + 1):
             kids[par[i - 1]].append(i)
@@ -133,14 +155,14 @@ class Built:
                     o = ET.Element('a' if i % 2 else 'b', attrib) if parent_obj is None else \
                         ET.SubElement(parent_obj, 'a' if i % 2 else 'b', attrib)
                     if txt[i - 1]:
-                        o.text = f't{i}'
+                        o.text = '' if etx[i - 1] else f't{i}'
                     for c in kids[i]:
                         mk(c, o)
                 else:
                     o = ET.Comment(f'c{i}') if k == 'c' else ET.ProcessingInstruction('p', f'p{i}')
                     parent_obj.append(o)
                 if tl[i - 1]:
-                    o.tail = f'l{i}'
+                    o.tail = '' if etl[i - 1] else f'l{i}'
                 self.objs[i] = o
                 return o
             self.root = mk(1, None)
@@ -155,14 +177,14 @@ class Built:
                         s += f' xmlns="urn:d{i}"' if pfx == '' else f' xmlns:{pfx}="urn:{pfx}{i}"'
                     for j in range(1, nat[i - 1] + 1):
                         s += f' x{j}="v{i}_{j}"'
-                    s += '>' + (f't{i}' if txt[i - 1] else '')
+                    s += '>' + (f't{i}' if txt[i - 1] and not etx[i - 1] else '')
                     s += ''.join(ser(c) for c in kids[i])
                     s += '</' + ('a' if i % 2 else 'b') + '>'
                 elif k == 'c':
                     s = f'<!--c{i}-->'
                 else:
                     s = f'<?p p{i}?>'
-                return s + (f'l{i}' if tl[i - 1] else '')
+                return s + (f'l{i}' if tl[i - 1] and not etl[i - 1] else '')
 
             def sib(kind, j):
                 return f'<!--sc{j}-->' if kind == 'c' else f'<?p sp{j}?>'
@@ -175,6 +197,11 @@ class Built:
                 raise tla.MachineryError(f'lxml rendering has {len(its)} items, abstract input {n}: {self.text}')
             for i, o in enumerate(its, 1):
                 self.objs[i] = o
+                # '' chunks cannot be written as XML text (a parser yields None): they are set programmatically
+                if etx[i - 1]:
+                    o.text = ''
+                if etl[i - 1]:
+                    o.tail = ''
         self.obj2item = {id(o): i for i, o in self.objs.items()}
         self.arg = self.root if cfg['rootarg'] == 'elem' else self.doc
         ns = cfg['nsarg']
@@ -182,9 +209,8 @@ class Built:
         self.fragment = FRAG[cfg['fragment']]
 
     def xml(self) -> str:
-        if self.text is not None:
-            return self.text
-        return ET.tostring(self.root, encoding='unicode')
+        s = self.text if self.text is not None else ET.tostring(self.root, encoding='unicode')
+        return s + (f"   [chunks set to '': {' '.join(self.empties)}]" if self.empties else '')
 
     def entries(self):
         """The public ways to obtain the node tree of this input."""
@@ -204,8 +230,10 @@ KIND = {'document': 'd', 'element': 'e', 'namespace': 'ns', 'attribute': 'a', 't
         'processing-instruction': 'p'}
 
 
-def chunk_literal(c) -> str:
+def chunk_literal(c, built=None) -> str:
     k, src, sub = c
+    if built is not None and ((k == 't' and built.etx[src - 1]) or (k == 'l' and built.etl[src - 1])):
+        return ''
     if k in ('t', 'l', 'c', 'p'):
         return f'{k}{src}'
     if k in ('sc', 'sp'):
@@ -232,6 +260,26 @@ class Projection:
             elif k in ('ns', 'a'):
                 par = nd.parent
                 d = (k, built.obj2item.get(id(par.value), -1) if par is not None else -1, None)
+            elif k == 't' and nd.string_value == '':
+                # an empty text chunk has no content literal: it is the text of its parent when it is the first
+                # child, else the tail of the element / comment / PI node right before it in parent.children
+                par = nd.parent
+                sibs = list(par.children) if par is not None and KIND.get(par.node_kind) == 'e' else []
+                at = next((u for u, x in enumerate(sibs) if x is nd), None)
+                if at is None:
+                    d = ('t', -1, None)
+                elif at == 0:
+                    d = ('t', built.obj2item.get(id(par.value), -1), None)
+                else:
+                    prev = sibs[at - 1]
+                    pk = KIND.get(prev.node_kind, '?')
+                    if pk == 'e':
+                        d = ('l', built.obj2item.get(id(prev.value), -1), None)
+                    elif pk in ('c', 'p'):
+                        m = _TOK.fullmatch(prev.string_value or '')
+                        d = ('l', int(m.group(2)) if m and m.group(1) == pk else -1, None)
+                    else:
+                        d = ('t', -1, None)
             else:
                 m = _TOK.fullmatch(nd.string_value or '')
                 if not m:
@@ -364,7 +412,7 @@ def judge_tree(vec: dict, built: Built, entry: str, root_node) -> tuple[list, li
         e = d[node_rank[j] - 1]
         k = pr.desc[j][0]
         if k in ('d', 'e'):
-            exp = ''.join(chunk_literal(tuple(c)) for c in e['sv'])
+            exp = ''.join(chunk_literal(tuple(c), built) for c in e['sv'])
             obs = nd.string_value
             if obs != exp:
                 for cause in sv_causes(exp, obs, tree):
@@ -415,7 +463,12 @@ def libxml2_check(vec: dict, built: Built) -> list[str]:
         for it in built.doc.xpath('//node()'):
             if isinstance(it, str):
                 m = _TOK.fullmatch(str(it))
-                obs.append((m.group(1), int(m.group(2)), 0) if m else ('?', str(it), 0))
+                if m:
+                    obs.append((m.group(1), int(m.group(2)), 0))
+                elif str(it) == '' and it.getparent() is not None:      # empty chunk: libxml2 says whose text / tail
+                    obs.append(('l' if it.is_tail else 't', built.obj2item.get(id(it.getparent()), -1), 0))
+                else:
+                    obs.append(('?', str(it), 0))
             elif it.tag is LX.Comment or it.tag is LX.ProcessingInstruction:
                 m = _TOK.fullmatch(it.text or '')
                 t, num = (m.group(1), int(m.group(2))) if m else ('?', -1)
@@ -430,7 +483,7 @@ def libxml2_check(vec: dict, built: Built) -> list[str]:
         if k == 'e':
             o = built.objs[src]
             s = o.xpath('string(.)')
-            e = ''.join(chunk_literal(tuple(c)) for c in x['sv'])
+            e = ''.join(chunk_literal(tuple(c), built) for c in x['sv'])
             if s != e:
                 out.append(f'string(.) of item {src}: spec {e!r} libxml2 {s!r} on {built.text}')
             if int(o.xpath('count(namespace::*)')) != len(x['px']):
@@ -439,7 +492,7 @@ def libxml2_check(vec: dict, built: Built) -> list[str]:
                 out.append(f'attribute count of item {src} on {built.text}')
         elif k == 'd':
             s = built.doc.xpath('string(/)')
-            e = ''.join(chunk_literal(tuple(c)) for c in x['sv'])
+            e = ''.join(chunk_literal(tuple(c), built) for c in x['sv'])
             if s != e:
                 out.append(f'string(/): spec {e!r} libxml2 {s!r} on {built.text}')
     return out
@@ -586,7 +639,7 @@ def ops_tree_worker(job):
     import elementpath
     (inp, dseq, dpar, opnds, states, init_sid, out_edges) = job
     cfg = dict(variant=inp['variant'], rootarg=inp['rootarg'], fragment=inp['fragment'], nsarg=inp['nsarg'])
-    tree = {k: inp[k] for k in ('n', 'par', 'knd', 'txt', 'tl', 'nat', 'decl', 'pre', 'post')}
+    tree = {k: inp[k] for k in ('n', 'par', 'knd', 'txt', 'tl', 'etx', 'etl', 'nat', 'decl', 'pre', 'post')}
     built = Built(cfg, tree)
     stats = dict(transitions=0, evaluations=0, nontrivial=0, skipped_trees=0)
     fails: dict = {}
@@ -643,6 +696,99 @@ def ops_tree_worker(job):
             return 'extra'
         return 'wrong'
 
+    rank_of_desc = {x: j for j, x in enumerate(exp_desc, 1)}
+    elem_ranks = [r for r in range(1, M + 1) if kind[r] == 'e']
+
+    def fresh_eval(version, text, item=None, variables=None, ctx=None):
+        """Evaluate on a FRESH node tree (nothing lazily created yet) unless a context is handed over;
+        the result is projected to ranks only AFTER the evaluation."""
+        tok = get_token(version, text)
+        if isinstance(tok, Exception):
+            return ('err', type(tok).__name__, getattr(tok, 'code', None)), None
+        try:
+            if ctx is None:
+                ctx = XPathContext(built.arg, built.namespaces, fragment=frag, item=item, variables=variables)
+            res = list(tok.select(ctx))
+        except Exception as ex:    # noqa: BLE001
+            return ('err', type(ex).__name__, getattr(ex, 'code', None)), ctx
+        if res and all(isinstance(x, bool) for x in res):
+            return res, ctx
+        p2 = Projection(built, ctx.root)
+        rk = {id(nd): rank_of_desc.get(p2.desc[j], ('?', str(p2.desc[j]))) for j, nd in enumerate(p2.nodes)}
+        return [rk.get(id(x), ('?', repr(x)[:40])) for x in res], ctx
+
+    def elem_obj(r):
+        return built.objs[exp_desc[r - 1][1]]
+
+    def path_edges(dst, action):
+        """Operands spelled as absolute / relative paths, evaluated from a focus that is an element (item= or
+        inside a step), and the fn:root sequence on one dynamic context; all on fresh node trees."""
+        c = states[dst][2]
+        common = dict(part='ops', variant=cfg['variant'], rootarg=cfg['rootarg'], fragment=cfg['fragment'])
+        if action == 'RootWalk':
+            exp = list(c[1])
+            stats['nontrivial'] += 1
+            text = 'for $e in $r/descendant-or-self::* return ($e/root(), $e/@*/root(), $e/namespace::*/root())'
+            v = ('2.0', '3.0', '3.1')[stats['transitions'] % 3]
+            obs, _ = fresh_eval(v, text, variables={'r': built.root})
+            stats['evaluations'] += 1
+            def seq_outcome(o):
+                return outcome(exp, o) if isinstance(o, tuple) or len(o) == len(exp) else \
+                    ('roots_missing' if len(o) < len(exp) else 'roots_extra')
+            if obs != exp:
+                record(dict(common, action='RootWalk', spelling='for', parser=v, outcome=seq_outcome(obs)),
+                       dict(kind='ops', sub='rootwalk', cfg=cfg, tree=tree, dseq=dseq, text=text, parser=v,
+                            xml=built.xml()), exp, str(obs))
+            # the same calls one after the other on ONE reused dynamic context
+            obs, ctx = [], None
+            variables = {f'e{r}': elem_obj(r) for r in elem_ranks}
+            for r in elem_ranks:
+                for t in (f'root($e{r})', f'$e{r}/@*/root()', f'$e{r}/namespace::*/root()'):
+                    if ctx is None:
+                        o, ctx = fresh_eval(v, t, variables=variables)
+                    else:
+                        o, _ = fresh_eval(v, t, ctx=ctx)
+                    stats['evaluations'] += 1
+                    if isinstance(o, tuple):
+                        obs = o
+                        break
+                    obs += o
+                if isinstance(obs, tuple):
+                    break
+            if obs != exp:
+                record(dict(common, action='RootWalk', spelling='one_context', parser=v, outcome=seq_outcome(obs)),
+                       dict(kind='ops', sub='rootwalk_ctx', cfg=cfg, tree=tree, dseq=dseq, parser=v, xml=built.xml()),
+                       exp, str(obs))
+            return
+        tag, op, A, B, f = c
+        v = ('2.0', '3.0', '3.1')[(f + len(A) + len(B) + stats['transitions']) % 3]
+        if action == 'PathAny':
+            exp = sorted(states[dst][0])
+            if len(exp) > 1:
+                stats['nontrivial'] += 1
+            syms = ['union', '|'] if op == 'union' else [op]
+            texts = [f'({A}) {sy} ({B})' for sy in syms]
+        else:
+            exp = [] if states[dst][1] == 'empty' else [states[dst][1] == 'true']
+            stats['nontrivial'] += 1 if exp else 0
+            texts = [f'(({A})[1]) {op} (({B})[1])']
+        for text in texts:
+            for how in ('item', 'step'):
+                if how == 'item':
+                    obs, _ = fresh_eval(v, text, item=elem_obj(f))
+                    shown = text
+                else:
+                    shown = f'$f/({text})'
+                    obs, _ = fresh_eval(v, shown, variables={'f': elem_obj(f)})
+                stats['evaluations'] += 1
+                if obs != exp:
+                    record(dict(common, action=action, op=op, first=('abs' if A.startswith('//') else 'rel'),
+                                second=('abs' if B.startswith('//') else 'rel'), focus=how,
+                                focus_is_root_elem=(exp_desc[f - 1][1] == 1), parser=v,
+                                outcome=(outcome(exp, obs) if action == 'PathAny' or isinstance(obs, tuple) else 'wrong_bool')),
+                           dict(kind='ops', sub='path', cfg=cfg, tree=tree, dseq=dseq, text=shown, how=how, focus=f,
+                                parser=v, A=A, B=B, xml=built.xml()), exp, str(obs))
+
     prefix = {init_sid: '$r'}
     queue = deque([init_sid])
     samples = []
@@ -652,6 +798,9 @@ def ops_tree_worker(job):
         src = states[sid]
         for (dst, action, args) in out_edges.get(sid, ()):
             stats['transitions'] += 1
+            if action in ('PathAny', 'PathCmpAny', 'RootWalk'):
+                path_edges(dst, action)
+                continue
             if action == 'CmpAny':
                 op, a, b = states[dst][2]
                 exp = states[dst][1] == 'true'
@@ -739,6 +888,8 @@ def random_input(rnd: random.Random, lo: int, hi: int) -> tuple[dict, dict]:
     # an element counts as parent candidate only if it is an element: guaranteed by construction
     txt = [knd[i] == 'e' and rnd.random() < 0.5 for i in range(n)]
     tl = [i > 0 and rnd.random() < 0.5 for i in range(n)]
+    etx = [txt[i] and rnd.random() < 0.2 for i in range(n)]       # '' chunks
+    etl = [tl[i] and rnd.random() < 0.2 for i in range(n)]
     nat = [rnd.choice([0, 0, 1, 2]) if knd[i] == 'e' else 0 for i in range(n)]
     if variant == 'lxml':
         decl = [sorted(rnd.choice([(), (), ('p',), ('q',), ('p', 'q'), ('',), ('', 'p')])) if knd[i] == 'e' else []
@@ -752,7 +903,7 @@ def random_input(rnd: random.Random, lo: int, hi: int) -> tuple[dict, dict]:
         nsarg = rnd.choice([[], ['p'], ['xml'], ['p', 'xml'], ['', 'p', 'q'], ['p', 'q', 'xml']])
     cfg = dict(variant=variant, rootarg=rnd.choice(['elem', 'tree']), fragment=rnd.choice(['none', 'none', 'true', 'false']),
                nsarg=nsarg)
-    tree = dict(n=n, par=par, knd=knd, txt=txt, tl=tl, nat=nat, decl=decl, pre=pre, post=post)
+    tree = dict(n=n, par=par, knd=knd, txt=txt, tl=tl, etx=etx, etl=etl, nat=nat, decl=decl, pre=pre, post=post)
     return cfg, tree
 
 
@@ -801,7 +952,7 @@ def validate_traces(recs: list, wd: str, chk=None) -> dict:
         path = os.path.join(wd, f'traces{bi}.json')
         with open(path, 'w') as f:
             json.dump([{k: r[k] for k in ('id', 'cfg', 'tree', 'events')} for r in batch], f)
-        cfgtxt = tla.cfg_text(dict(MaxItems=1, ItemKinds={"e"}, TextOpts={True}, TailOpts={True}, AttrCounts={0},
+        cfgtxt = tla.cfg_text(dict(MaxItems=1, ItemKinds={"e"}, TextOpts={True}, TailOpts={True}, EmptyOpts={False}, AttrCounts={0},
                                    DeclOpts={E}, Variants={"etree"}, RootArgs={"elem"}, Fragments={"none"}, NsArgs={E},
                                    MaxSibs=0, Emit=False),
                               spec='TSpec', invariants=['TypeOK', 'PopSafe', 'GapSafe', 'Refinement'])
@@ -936,7 +1087,8 @@ def run_treebuild(chk: core.Check) -> None:
               flush=True)
     # anti-vacuity: every action of the step machine fires (coverage run on a small configuration with all
     # features; the big runs are covered by "one terminal vector per initial state" above)
-    mini = dict(MaxItems=3, ItemKinds={"e", "c"}, TextOpts={True}, TailOpts={True}, AttrCounts={1}, DeclOpts={fs({"p"})},
+    mini = dict(MaxItems=3, ItemKinds={"e", "c"}, TextOpts={True}, TailOpts={True}, EmptyOpts={False}, AttrCounts={1},
+                DeclOpts={fs({"p"})},
                 Variants={"etree", "lxml"}, RootArgs={"elem", "tree"}, Fragments={"none", "false"}, NsArgs={E}, MaxSibs=1,
                 Emit=False)
     r = tla.require_ok(tla.run_tlc('TreeBuild', tla.cfg_text(mini, spec='Spec', invariants=['TypeOK']),
@@ -976,7 +1128,8 @@ def run_nodeops(chk: core.Check) -> None:
         g = tla.load_dot(dot)
         os.remove(dot)
         t_load = time.time() - t0
-        ikeys = ('variant', 'rootarg', 'fragment', 'nsarg', 'n', 'par', 'knd', 'txt', 'tl', 'nat', 'decl', 'pre', 'post')
+        ikeys = ('variant', 'rootarg', 'fragment', 'nsarg', 'n', 'par', 'knd', 'txt', 'tl', 'etx', 'etl', 'nat', 'decl',
+                 'pre', 'post')
         trees: dict = {}
         tree_of = {}
         for sid, st in g.states.items():
@@ -994,7 +1147,8 @@ def run_nodeops(chk: core.Check) -> None:
         n_edges = len(g.edges)
         seen_ops = {(a, args[0] if args else None) for _, _, a, args in g.edges}
         want = {('SetOp', o) for o in ('union', 'intersect', 'except', 'rexcept')} | \
-               {('Fn', f) for f in ('innermost', 'outermost', 'root')} | {('CmpAny', None)}
+               {('Fn', f) for f in ('innermost', 'outermost', 'root')} | \
+               {('CmpAny', None), ('PathAny', None), ('PathCmpAny', None), ('RootWalk', None)}
         if want - seen_ops:
             raise tla.MachineryError(f'NodeOps/{name}: operators never applied (vacuous): {sorted(want - seen_ops, key=str)}')
         jobs = [tuple(v) for v in trees.values()]
@@ -1025,7 +1179,7 @@ def run(chk: core.Check) -> None:
         'with it on document order, string values and attribute/namespace counts of every lxml input (else exit 2)',
         'exhaustive universe bounded as listed in coverage.configs; beyond it only the seeded random trees of binding B',
         'real nodes are recognised by object identity (elements) and unique content literals (text, comment, PI, attribute)',
-        'implementation-defined and excluded: xmlns="" undeclaration, empty-string text, relative order of the '
+        'implementation-defined and excluded: xmlns="" undeclaration, relative order of the '
         'namespace nodes / attributes of one element (compared as sets inside the element block)',
         'exact position numbers are diagnostic; decisive is uniqueness + strict increase in definitional document order',
     ]
@@ -1062,6 +1216,60 @@ def replay(rec: dict) -> int:
         print('expected :', rec['expected'])
         print('observed :', bad[0][3] if bad else 'agrees now')
         if bad:
+            print('VIOLATION property=C02 replay=(replayed)')
+            return 1
+        return 0
+    if case['kind'] == 'ops' and case.get('sub') in ('path', 'rootwalk', 'rootwalk_ctx'):
+        from elementpath import XPathContext
+        built = Built(case['cfg'], case['tree'])
+        exp_desc = [tuple(x) for x in case['dseq']]
+        rank_of_desc = {x: j for j, x in enumerate(exp_desc, 1)}
+        v = case['parser']
+
+        def fresh(text, item=None, variables=None, ctx=None):
+            tok = get_token(v, text)
+            if isinstance(tok, Exception):
+                return ('err', type(tok).__name__, getattr(tok, 'code', None)), None
+            try:
+                if ctx is None:
+                    ctx = XPathContext(built.arg, built.namespaces, fragment=built.fragment, item=item, variables=variables)
+                res = list(tok.select(ctx))
+            except Exception as ex:   # noqa: BLE001
+                return ('err', type(ex).__name__, getattr(ex, 'code', None)), ctx
+            if res and all(isinstance(x, bool) for x in res):
+                return res, ctx
+            p2 = Projection(built, ctx.root)
+            rk = {id(nd): rank_of_desc.get(p2.desc[j], ('?', str(p2.desc[j]))) for j, nd in enumerate(p2.nodes)}
+            return [rk.get(id(x), ('?', repr(x)[:40])) for x in res], ctx
+
+        def obj(r):
+            return built.objs[exp_desc[r - 1][1]]
+        if case['sub'] == 'path':
+            if case['how'] == 'item':
+                obs, _ = fresh(case['text'], item=obj(case['focus']))
+            else:
+                obs, _ = fresh(case['text'], variables={'f': obj(case['focus'])})
+            print('expr     :', case['text'], f"  focus = rank {case['focus']} ({case['how']})  parser", v)
+        elif case['sub'] == 'rootwalk':
+            obs, _ = fresh(case['text'], variables={'r': built.root})
+            print('expr     :', case['text'], ' parser', v)
+        else:
+            elem_ranks = [r for r in range(1, len(exp_desc) + 1) if exp_desc[r - 1][0] == 'e']
+            obs, ctx = [], None
+            for r in elem_ranks:
+                for t in (f'root($e{r})', f'$e{r}/@*/root()', f'$e{r}/namespace::*/root()'):
+                    o, c2 = fresh(t, variables={f'e{q}': obj(q) for q in elem_ranks}, ctx=ctx)
+                    ctx = ctx or c2
+                    if isinstance(o, tuple):
+                        obs = o
+                        break
+                    obs += o
+                if isinstance(obs, tuple):
+                    break
+            print('sequence : root($eK), $eK/@*/root(), $eK/namespace::*/root() for every element, ONE context; parser', v)
+        print('expected :', rec['expected'])
+        print('observed :', obs)
+        if list(obs) != list(rec['expected']):
             print('VIOLATION property=C02 replay=(replayed)')
             return 1
         return 0
